@@ -307,6 +307,28 @@ def unfiltered(ck, F, ml):
         ck.require(".text" in txt, "C20:DIAG:latest-text#%d" % k, "nothing filtered",
                    "analyze() receives the text carried by the notification",
                    "a notification handler analyses something other than the text it was sent: %s" % txt, c.span)
+        # a change notification may carry several change events; with full-document sync each carries a whole text and the
+        # latest text is the LAST of them
+        e = ml.expr(c.args[0], depth=30)
+        if ".content_changes" in txt or "content_changes" in repr(e):
+            picks = []
+            for x in expr_calls(e):
+                nm = x[1].split("::")[-1]
+                if nm in ("into_iter", "iter", "cast_notification", "drain", "as_slice", "deref", "clone", "cloned", "into_vec"):
+                    continue
+                if "content_changes" in repr(x[2]):
+                    picks.append(nm)
+            rev = "rev" in picks
+            last_ok = any(p in ("last", "pop", "next_back", "last_mut") for p in picks) and not rev or \
+                (rev and any(p in ("next", "nth") for p in picks))
+            # `for change in content_changes { analyze(change.text); insert(..) }`: every event is analysed in order, the last wins
+            inner = [blk for h, blk in ml.natural_loops().items() if c.bb in blk and h != min(ml.natural_loops())]
+            if inner and "next" in picks and not rev:
+                last_ok = True
+            ck.require(last_ok, "C20:DIAG:last-change-wins", "nothing filtered",
+                       "of the change events in a notification the last one is analysed (%s)" % ",".join(picks),
+                       "the didChange handler picks the text to analyse with %s: when a notification carries several change "
+                       "events the diagnostics are for a stale text, not the latest one" % (",".join(picks) or "no selection"), c.span)
 
 
     # diagnostics and tokens always reflect the latest text: the document table is only ever overwritten (`insert`) or
